@@ -7,71 +7,7 @@ LEVEL_NOTE = ('Trusted: Lean 4.33 kernel, axioms within {propext, Classical.choi
               'no sorry/native_decide/own axioms), Mathlib definitions where imported, the Python correspondence harness and the '
               'driver parsing. Modelled, not verified: numba/numpy/pandas/CPython/xxhash behaviour as listed in DESIGN §4.')
 
-CHECKS = {
-    'C07': dict(
-        text=('Theorems over an executable Lean model of prior_combinations_sample, for ALL histories (any length), list sizes, '
-              'caps (changing, zero, > n) and presentation orders: returned ⊆ candidates, exactly min(cap,n) distinct, '
-              'least-evaluated-first, spread ≤ 1 after every batch (fair_forever, by induction over the history), '
-              'counter = number of selections (accounting). Tie: the real function is run on generated histories and '
-              'must agree with the model call by call (returned order and whole counter); the Lean-checked spec predicates '
-              'are evaluated on the implementation outputs.'),
-        technique='Lean 4 proof (induction over call history) + differential correspondence harness',
-        design='§5 C07'),
-    'C15': dict(
-        text=('Theorems over an executable Lean model of CountMinSketch (int32 cells with explicit wrap) parametric in an ARBITRARY '
-              'hash, and of the bounded counter, for ALL update streams, depths >= 1 and widths: every cell holds exactly the weight '
-              'hashed into it (cell_eq, invariant by induction over the stream), hence true weight <= query <= total and every row '
-              'sums to the total (hypothesis: total < 2^31); counter never over-counts, tracks <= bound keys, exact while fewer than '
-              'bound distinct values were seen. Tie: the real classes are run on generated streams (forced collisions) and the whole '
-              'matrix, all queries and the counter contents must equal the model; real cms_hash locations are shipped to the model.'),
-        technique='Lean 4 proof (representation invariant by induction over the stream) + differential correspondence harness',
-        design='§5 C15'),
-    'C01': dict(
-        text=('Theorems (Lean 4 + Mathlib, over ℝ with Real.log) about an executable model of mutual_info_estimator_numba that is '
-              'polymorphic in its arithmetic: for ALL equal-length vectors (any n >= 1, any codes, any joint partition) the plain '
-              'estimator returns exactly the plug-in MI (estimator_eq_plugin), which is symmetric, >= 0 (Gibbs), 0 when a side is '
-              'constant, <= min(H(Y),H(X)), and equals H(X) on (X,X). The same definitions run at Float in the driver; the tie '
-              'compares the real njit function with them on generated pairs within a float32 rounding tolerance, and the '
-              'Lean-checked spec (pluginL = miPlugin) is evaluated on the implementation outputs.'),
-        technique='Lean 4 proof over ℝ (count-table closed form, Gibbs inequality) + differential correspondence harness',
-        design='§5 C01'),
-    'C02': dict(
-        text=('Theorems over the same model: relabel_invariant (any maps injective on the occurring codes leave plain and corrected '
-              'scores unchanged, for all vectors), dispatch_identical / dispatch_different (self-pair handling exactly when the '
-              'vectors are element-wise identical), sum_test_unsound (why the old sum test broke it). Tie: real estimator vs model, '
-              'with a 30% stream of equal-sum / equal-histogram non-identical pairs; oracle = invariance of the implementation '
-              'under generated relabelings + the dispatch clause.'),
-        technique='Lean 4 proof over ℝ (finset reindexing under injective relabeling) + differential correspondence harness',
-        design='§5 C02'),
-    'C03': dict(
-        text=('Theorems: corrected_identity (score = H(Y*|X) − H(Y|X) for all Y ≠ X), corrected_const = 0, corrected_alldistinct = 0, '
-              'corrected_self = H(X), for all vectors. PARTIAL: the ranking corollary (signal outranks independent noise for all '
-              'seeds at n >= 4000) is statistical, false for adversarial noise; it is measured (minimum margin recorded in the '
-              'evidence, failing only if the corrected margin is <= 0 on some seed), not proved. Tie: real estimator with the '
-              'flag on vs model; name -> flag mapping checked through numba_mi.'),
-        technique='Lean 4 proof over ℝ + differential correspondence harness; statistical corollary measured',
-        design='§5 C03'),
-    'C04': dict(
-        text=('Theorems (core Lean) over a model of stratified_subsampling with an explicit uninitialised-cell memory model: for EVERY '
-              'content of the uninitialised buffer the repaired code never reads an uninitialised or out-of-range cell and returns '
-              'exactly the stated sample (subsample_safe); sampled rows are valid, distinct, per-value first-quota positions; the '
-              'estimator always terminates (estimator_ok) and its score is a function of the sampled rows only (score_sample_only, any '
-              'arithmetic); old_buffer_unsafe documents the pre-fix read. PARTIAL: that the native code performs exactly the modelled '
-              'reads is observed, not proved: every case runs in fresh processes under MALLOC_PERTURB_ 0/85/170 (segfault, '
-              'allocator-dependent values and out-of-sample dependence are oracle failures).'),
-        technique='Lean 4 proof (memory-model refinement, list induction) + fresh-process differential harness under allocator perturbation',
-        design='§5 C04'),
-    'C14': dict(
-        text=('Theorems over an executable model of HyperLogLogWCache parametric in the register count, warm-up capacity and an ARBITRARY '
-              'hash: len_run_eq_spec (after ANY insertion sequence the size equals a stateless function of the value SET), hence exact '
-              'while distinct <= W, duplicate-blind and order-independent in BOTH phases, and beyond W the size is the estimate of the '
-              'registers left empty by the value set. PARTIAL: "within 2% up to 2^21" is a property of xxh32\'s distribution (false for '
-              'adversarial values) and is measured, not proved. Tie: the real class with p/m/warmup_size/width overridden to small '
-              'values is compared add by add (phase flag, size) with the model fed the real xxh32 digests; the class constants and the '
-              'real-size sketch (exact to 2^18, duplicate at the boundary, measured error beyond) are checked against the property directly.'),
-        technique='Lean 4 proof (state invariant by induction over the insertion sequence) + differential correspondence harness',
-        design='§5 C14'),
-}
+CHECKS = json.load(open(os.path.join(HERE, 'harness', 'checks.json'), encoding='utf-8'))   # per property: text, technique, design[, note]
 
 NOT_YET = {}
 
